@@ -14,7 +14,7 @@ CL = {(3, 1): "a bot acted although it was not asked / not at the table / shown 
 def run(res, replay=None):
     q = res.tier == "quick"
     plans = [("gen", None, 28 if q else 600, 7 if q else 60, None), ("bots", "bots", 8 if q else 200, 8 if q else 40, None)]
-    return run_actor(res, (3,), CL, (1, 2, 3), replay=replay, plans=plans,
+    return run_actor(res, (3,), CL, (1, 2, 3, 9), replay=replay, plans=plans,
                      extra_assumptions=["'bot tables play out' is decided on bots-only tables (PARTIAL: needs the hand engine to close every betting round)"])
 
 
